@@ -1613,6 +1613,7 @@ def run(ck: Ck) -> None:
             'join_file_parts_puts_the_separators_where_the_parts_are': 'join_table_ok g_join_table',
             'get_file_parts_takes_the_parts_from_the_three_forms': 'gparts_ok g_parts',
             'fileinfo_filename_is_join_file_parts': 'g_fileinfo_filename_is_join',
+            'every_name_argument_is_resolved_by_get_file_parts': 'g_names_resolved_by_get_file_parts',
             # archive file names (Gen/VpkArchName_gen.v): premises of c13_dir_prefix_exact / c13_arch_names_coincide / c13_arch_filename_*
             'filename_setter_removes_the_tested_suffix': 'setter_ok g_ncfg',
             'write_site_prefix_is_the_dir_prefix': 'site_ok g_ncfg (n_writer g_ncfg)',
